@@ -172,6 +172,10 @@ func (d *DataRow) SetReferences() (err error) {
 
 // GetString returns the string value for given column.
 func (d *DataRow) GetString(col *Column) string {
+	if col.Optional != NoFlags && !d.dataStore.peer.HasFlag(col.Optional) {
+		// this backend does not provide the column, the row has no slot for it
+		return interface2stringNoDedup(col.GetEmptyValue())
+	}
 	switch col.StorageType {
 	case LocalStore:
 		switch col.DataType {
@@ -242,6 +246,10 @@ func (d *DataRow) GetStringListByName(name string) []string {
 
 // GetFloat returns the float64 value for given column.
 func (d *DataRow) GetFloat(col *Column) float64 {
+	if col.Optional != NoFlags && !d.dataStore.peer.HasFlag(col.Optional) {
+		// this backend does not provide the column, the row has no slot for it
+		return interface2float64(col.GetEmptyValue())
+	}
 	switch col.StorageType {
 	case LocalStore:
 		switch col.DataType {
